@@ -128,7 +128,7 @@ PROPS = {
         assumptions=PROC_ASSUME['C13'],
     ),
     'C17': dict(
-        lean=['Props.C17', 'Props.C17Spec', 'Props.FactsProc', 'Props.Pipeline'],
+        lean=['Props.C17', 'Props.C17Spec', 'Props.PipeC17', 'Props.FactsProc', 'Props.Pipeline'],
         streams=['processor', 'e2e', 'names'],
         project={'processor': r'^< (c\.|t\.|ret|panic)'}, rule=PROC_RULE, trusted=PROC_TRUSTED,
         assumptions=PROC_ASSUME['C17'],
@@ -156,7 +156,7 @@ PROPS = {
         assumptions=['same event skeleton (resets, FFC flags) in both streams'],
     ),
     'C09': dict(
-        lean=['Props.C09', 'Props.FactsProc'],
+        lean=['Props.C09', 'Props.PipeC09', 'Props.FactsProc'],
         streams=['detector', 'processor'],
         project={'processor': r'^< det'},
         rule=DET_RULE, trusted=DET_TRUSTED,
@@ -191,8 +191,9 @@ PROPS = {
         assumptions=['frames do not begin with the bytes "clear" (indistinguishable from the marker in the wire format itself)', 'frame size >= 5'],
     ),
     'C11': dict(
-        lean=['Props.C11', 'Props.FactsWiring', 'Props.FactsProc', 'Props.Pipeline', 'Props.C11Thr'],
-        streams=['e2e', 'throttle'],
+        lean=['Props.C11', 'Props.C13Parse', 'Props.FactsWiring', 'Props.FactsProc', 'Props.Pipeline', 'Props.C11Thr'],
+        streams=['e2e', 'throttle', 'parse'],
+        project={'parse': r'^$'},
         rule=E2E_RULE,
         trusted=E2E_TRUSTED + ['go-cptv compression + gzip: validated by decoding every produced file with the standard reader, not proved'],
         assumptions=['in-range settings (fps, preview-secs < 256; strings <= 255 bytes; motion YAML <= 255 bytes)', 'throttle refill disabled in e2e runs (min-refill 100 h, real clock)'],
